@@ -108,7 +108,12 @@ func (op *pipelineOp) exec(fm *Frame) Exception {
 		var fops []formOwnedPort
 		inputIsPipe := i > 0
 		outputIsPipe := i < nforms-1
+		// The reading end of the pipe from the previous form, if any. The form
+		// may replace newFm.ports[0] with a redirection, so keep it separately
+		// for signalling the previous form when this one finishes.
+		var inputPipe *Port
 		if inputIsPipe {
+			inputPipe = nextIn
 			newFm.ports[0] = nextIn
 			growAccess(&fops, 0).File = true
 		}
@@ -139,7 +144,7 @@ func (op *pipelineOp) exec(fm *Frame) Exception {
 				*pexc = exc
 			}
 			if inputIsPipe {
-				input := newFm.ports[0]
+				input := inputPipe
 				*input.sendError = errs.ReaderGone{}
 				close(input.sendStop)
 				input.readerGone.Store(true)
